@@ -218,7 +218,7 @@ def run(ctx):
             continue
         names = list(me.bases(cls))
         if ctx.tier != "thorough":
-            names = names[:2] + [n for n in names[2:] if n.endswith("_nano") or n.endswith("_vmean0")]
+            names = names[:2] + [n for n in names[2:] if n.endswith("_nano") or n.endswith("_vmean0") or n.endswith("_far")]
         if cls == "Polygon":
             names = ["dart_cw", "dart_negnormal"] if not r["convex"] else ["rect", "pent", "rect_negnormal"]
         for b in names:
